@@ -74,6 +74,7 @@ type Exchange struct {
 	reqSnap reqSnapshot
 	req     *http.Request
 	resp    *http.Response
+	held    bool // body not read yet
 }
 
 type RespObs struct {
@@ -239,8 +240,16 @@ func (c *recConn) fault() (Fault, bool, int) {
 	w.nops++
 	f, ok := w.faults[n]
 	w.mu.Unlock()
+	if ok && f.Kind == "crash" {
+		// the process "dies" right before this store operation: nothing of the current round
+		// trip runs any further (the harness recovers the sentinel and carries on like a restart)
+		panic(CrashSentinel)
+	}
 	return f, ok, n
 }
+
+// CrashSentinel is the panic value of the simulated process death (fault kind "crash").
+const CrashSentinel = "verif: simulated process death"
 
 var errInjected = errors.New("verif: injected store failure")
 
@@ -497,7 +506,8 @@ func (r *failReader) Read(p []byte) (int, error) {
 }
 func (r *failReader) Close() error { return nil }
 
-var tRe = regexp.MustCompile(`\$T([+-][0-9]+)`)
+var tRe = regexp.MustCompile(`\$([TRA])([+-][0-9]+)`)
+var xRe = regexp.MustCompile(`\$X([0-9A-Fa-f]{2})`)
 
 // subst expands the placeholders of a scripted header value: $S = serial of the reply,
 // $T+n / $T-n = HTTP-date n seconds after/before the (virtual) instant of the reply.
@@ -506,10 +516,33 @@ func subst(v string, serial int, nowNs int64) string {
 		return v
 	}
 	v = strings.ReplaceAll(v, "$S", strconv.Itoa(serial))
+	v = xRe.ReplaceAllStringFunc(v, func(m string) string {
+		b, _ := strconv.ParseUint(m[2:], 16, 8)
+		return string([]byte{byte(b)})
+	})
+	// $T = IMF-fixdate, $R = RFC 850, $A = asctime (the three formats of RFC 9110 §5.6.7)
 	return tRe.ReplaceAllStringFunc(v, func(m string) string {
 		n, _ := strconv.ParseInt(m[2:], 10, 64)
 		sec := nowNs / 1e9
-		return t0Wall.Add(time.Duration(sec+n) * time.Second).UTC().Format(http.TimeFormat)
+		tm := t0Wall.Add(time.Duration(sec+n) * time.Second).UTC()
+		switch m[1] {
+		case 'R':
+			return tm.Format("Monday, 02-Jan-06 15:04:05 GMT")
+		case 'A':
+			return tm.Format(time.ANSIC)
+		}
+		return tm.Format(http.TimeFormat)
+	})
+}
+
+// SubstBytes expands only the $X<hh> raw-byte escapes (request header values).
+func SubstBytes(v string) string {
+	if !strings.Contains(v, "$X") {
+		return v
+	}
+	return xRe.ReplaceAllStringFunc(v, func(m string) string {
+		b, _ := strconv.ParseUint(m[2:], 16, 8)
+		return string([]byte{byte(b)})
 	})
 }
 
@@ -997,6 +1030,25 @@ func (w *World) run() {
 		}
 		wg.Wait()
 	}
+	// bodies the client held back are read now (everything the cache did in between must not
+	// have touched them)
+	for _, ex := range obs.Exchanges {
+		if ex.held && ex.resp != nil && ex.resp.Body != nil {
+			func() {
+				defer func() {
+					if r := recover(); r != nil {
+						ex.Panic = fmt.Sprintf("body read: %v", r)
+					}
+				}()
+				b, rerr := io.ReadAll(ex.resp.Body)
+				ex.Resp.Body = b
+				if rerr != nil {
+					ex.Resp.BodyErr = rerr.Error()
+				}
+				_ = ex.resp.Body.Close()
+			}()
+		}
+	}
 	// let background work finish: longer than any SWR timeout we configure
 	drain := 2 * time.Hour
 	if sc.SWRSet && time.Duration(sc.SWRNs) > time.Hour {
@@ -1055,7 +1107,15 @@ func (w *World) doReqMode(rt http.RoundTripper, step int, rq *Req, concurrent bo
 	obs.Exchanges = append(obs.Exchanges, ex)
 	w.mu.Unlock()
 	base := context.WithValue(context.Background(), exKey{}, ex.Idx)
+	if rq.TraceID != "" {
+		base = httpcache.ContextWithTraceID(base, rq.TraceID)
+	}
 	ctx, cancel := context.WithCancel(base)
+	if rq.DeadlineNs > 0 {
+		var c2 context.CancelFunc
+		ctx, c2 = context.WithTimeout(ctx, time.Duration(rq.DeadlineNs))
+		_ = c2 // released with cancel
+	}
 	switch {
 	case rq.CancelNs < 0:
 		cancel()
@@ -1068,7 +1128,7 @@ func (w *World) doReqMode(rt http.RoundTripper, step int, rq *Req, concurrent bo
 		return cancel
 	}
 	for _, kv := range rq.Header {
-		req.Header.Add(kv[0], kv[1])
+		req.Header.Add(kv[0], SubstBytes(kv[1]))
 	}
 	ex.req = req
 	ex.reqSnap = snapReq(req)
@@ -1125,6 +1185,11 @@ func (w *World) doReqMode(rt http.RoundTripper, step int, rq *Req, concurrent bo
 	}
 	if rq.LateBodyNs > 0 {
 		time.Sleep(time.Duration(rq.LateBodyNs))
+	}
+	if rq.HoldBody && !concurrent {
+		ex.Resp = ro
+		ex.held = true
+		return cancel
 	}
 	if resp.Body != nil {
 		func() {
@@ -1326,6 +1391,9 @@ func (w *World) corruptFile(c *Corrupt) {
 		data = append(data, []byte(c.Data)...)
 	case "file-zero":
 		data = nil
+	case "file-plaintext":
+		// the file is replaced wholesale by a well-formed unencrypted record
+		data = []byte(c.Data)
 	case "file-swap":
 		g := files[(((c.KeySel+1+c.Arg)%len(files))+len(files))%len(files)]
 		other, err := os.ReadFile(g)
